@@ -362,7 +362,8 @@ def work_canon(task, col):
         col.outcome("canon/" + outcome)
         if key is not None:
             col.nontrivial(("canon", key))
-            col.sample(case, limit=1)
+            if what in ("SOA", "NAPTR", "LP") and case["mode"] == "rel" and "\\" in case["spells"][0]:
+                col.sample(case, limit=1)
         for s, w in probs:
             col.violation(s, w, case)
 
@@ -807,6 +808,8 @@ def work_ds(task, col):
         col.outcome("ds/" + outcome)
         if key is not None:
             col.nontrivial(key)
+            if case["klen"] == 65 and case["path"] == "make_ds_validating" and case["owner"] == "Sub":
+                col.sample(case, limit=1)
         for s, w in probs:
             col.violation(s, w, case)
 
@@ -1042,6 +1045,9 @@ def work_zonemd(task, col):
                     col.count("zonemd_cases")
                     col.outcome("zonemd/" + outcome)
                     col.nontrivial(("zm", key))
+                    if bits == 0b101101101 and alg == 1:
+                        col.sample({"part": "zonemd", "zone": zone_text(zm_rrs(bits)), "rel": rel, "zcls": zcls,
+                                    "outcome": outcome}, limit=1)
                     for s, w in probs:
                         col.violation(s, w, case)
 
